@@ -450,4 +450,64 @@ def check_py_native(res):
             detail="integer keys/values must be coerced with operator.index "
                    "(rejects floats, Decimals, numeric strings); int() "
                    "truncates them and the C type rejects them", path=[]))
+    # no class below _AbstractNativeDataType routes around the validation:
+    # an overriding __call__ may only delegate; _check_native is not replaced;
+    # the integer classes keep operator.index / int
+    allc = pyfront.classes(dt)
+    natives = [c for c in allc if c != "_AbstractNativeDataType"
+               and "_AbstractNativeDataType" in pyfront.mro(dt, c)]
+    if len(natives) < 6:
+        raise AnalysisError("anchor vanished: %d native datatype classes" % len(natives))
+    for cname in sorted(natives):
+        m2 = pyfront.class_members(allc[cname])
+        n += 1
+        ov = m2.get("__call__")
+        if ov is not None:
+            okov = isinstance(ov, ast.FunctionDef)
+            if okov:
+                it = ov.args.args[1].arg if len(ov.args.args) > 1 else None
+                for r in ast.walk(ov):
+                    if isinstance(r, ast.Return):
+                        v = pyfront.unparse(r.value) if r.value is not None else ""
+                        if v not in ("super().__call__(%s)" % it,
+                                     "super(%s, self).__call__(%s)" % (cname, it),
+                                     "_AbstractNativeDataType.__call__(self, %s)" % it,
+                                     "self._as_python_type(%s)" % it):
+                            okov = False
+                            res.findings.add(dict(
+                                rule="PY-NATIVE-CALL", function="%s.__call__" % cname, file=rel,
+                                line=r.lineno, construct="overriding __call__ returns %s" % v,
+                                detail="a datatype class below _AbstractNativeDataType "
+                                       "returns a value that did not pass the struct "
+                                       "pack check of the base __call__: out-of-range "
+                                       "or unnormalised keys/values are stored (the C "
+                                       "type rejects or normalises them)", path=[]))
+        if "_check_native" in m2:
+            res.findings.add(dict(
+                rule="PY-NATIVE-CALL", function="%s._check_native" % cname, file=rel,
+                line=allc[cname].lineno, construct="_check_native is replaced in a subclass",
+                detail="the pack check is the range validation of the native "
+                       "types", path=[]))
+    for cname in ("I", "U", "L", "Q"):
+        if cname not in allc:
+            raise AnalysisError("anchor vanished: datatype class %s" % cname)
+        n += 1
+        got = {}
+        for attr in ("_as_packable", "_as_python_type"):
+            for c in pyfront.mro(dt, cname):
+                if c in allc and attr in pyfront.class_members(allc[c]):
+                    got[attr] = pyfront.class_members(allc[c])[attr]
+                    break
+        ap2 = got.get("_as_packable")
+        at2 = got.get("_as_python_type")
+        if not (isinstance(ap2, tuple) and ap2[0] == "alias" and (ap2[2], ap2[1]) == ("operator", "index")):
+            res.findings.add(dict(
+                rule="PY-NATIVE-CALL", function="%s._as_packable" % cname, file=rel,
+                line=allc[cname].lineno, construct="_as_packable of %s is not operator.index" % cname,
+                detail="integer keys/values must be coerced with operator.index", path=[]))
+        if not (isinstance(at2, tuple) and at2[0] == "alias" and at2[1] == "int"):
+            res.findings.add(dict(
+                rule="PY-NATIVE-CALL", function="%s._as_python_type" % cname, file=rel,
+                line=allc[cname].lineno, construct="_as_python_type of %s is not int" % cname,
+                detail="integer keys/values are normalised to plain int", path=[]))
     res.count("PY-NATIVE-CALL", n)
